@@ -602,7 +602,9 @@ class Machine:
         if mapping is not None:
             kw["mapping"] = mapping
         if op["counts"]:
-            vals, cnts = numpy.unique(a, return_counts=True)
+            # the frequency table is keyed by plain ints whatever the element type (what bincount gives); a table
+            # keyed by Python bools is outside the explored domain, see DESIGN.md section 10, observation O1
+            vals, cnts = numpy.unique(a.astype(numpy.int64), return_counts=True)
             kw["counts"] = dict(zip(vals.tolist(), cnts.tolist()))
             for extra in op.get("zero_counts", ()):
                 # a frequency table may also name categories that happen not to occur
